@@ -603,5 +603,77 @@ func main() {
 				}
 			}
 		}})
+	// heights in descending order through the XMSS wrapper; empty message with rejected signatures through the Dilithium wrapper;
+	// public keys with a non-zero reserved descriptor byte
+	ck.Domains = append(ck.Domains, &drv.Domain{Name: "wrapper-relations", Size: 3, Chunk: 1, Desc: "(0) XMSSVerify on signatures of heights 6,4,6,4 (3 hash functions) in one process; (1) DilithiumVerify with the EMPTY / nil message against valid, tampered, foreign and all-zero signatures; (2) GetXMSSAddressFromPK on public keys whose third descriptor byte is 01 / FF",
+		Run: func(c *drv.Ctx, lo, hi int64) {
+			for i := lo; i < hi; i++ {
+				c.At(i)
+				switch i {
+				case 0:
+					type kk struct {
+						pk  [67]byte
+						sig []byte
+					}
+					var ks []kk
+					for _, h := range []uint8{6, 4} {
+						for hf := 0; hf < 3; hf++ {
+							k := xmss.NewXMSSFromSeed(seeds.Seed48(3+hf, c.Seed), h, xmss.HashFunction(hf), common.SHA256_2X)
+							sg, _ := k.Sign([]byte("heights"))
+							ks = append(ks, kk{k.GetPK(), sg})
+						}
+					}
+					for round := 0; round < 2; round++ {
+						for n, k := range ks {
+							core := outcomeBool(func() bool { return xmss.Verify([]byte("heights"), k.sig, k.pk) })
+							wr := outcomeBool(func() bool {
+								return xmssjs.XMSSVerify("heights", hex.EncodeToString(k.sig), hex.EncodeToString(k.pk[:]))
+							})
+							c.Eval(1)
+							if core != wr || core != "true" {
+								c.Fail(i, "xmss-heights-sequence", map[string]any{"round": round, "key": n, "core": core, "wrapper": wr})
+							}
+						}
+					}
+					c.Nontrivial(1)
+				case 1:
+					ks := getD(c.Seed)
+					for _, msg := range [][]byte{{}, nil} {
+						good, _ := ks[0].d.Sign(msg)
+						bad := good
+						bad[10] ^= 1
+						var zero [dilithium.CryptoBytes]byte
+						for n, sg := range [][dilithium.CryptoBytes]byte{good, bad, ks[0].sig[0], zero} {
+							sg := sg
+							core := outcomeBool(func() bool { return dilithium.Verify(msg, sg, &ks[0].pk) })
+							wr := outcomeBool(func() bool {
+								return dilithiumjs.DilithiumVerify(msg, hex.EncodeToString(sg[:]), hex.EncodeToString(ks[0].pk[:]))
+							})
+							c.Eval(1)
+							if core != wr {
+								c.Fail(i, "dilithium-empty-message", map[string]any{"signature_variant": n, "message_nil": msg == nil, "core": core, "wrapper": wr})
+							}
+						}
+					}
+					c.Nontrivial(1)
+				case 2:
+					xs := getX(c.Seed)
+					for _, b2 := range []byte{1, 0xFF, 0x80} {
+						pk := xs[0].pk
+						pk[2] = b2
+						core := outcomeStr(func() string { a := xmss.GetXMSSAddressFromPK(pk); return hex.EncodeToString(a[:]) })
+						wr := outcomeStr(func() string {
+							return strings.ToLower(stripOut(xmssjs.GetXMSSAddressFromPK(hex.EncodeToString(pk[:]))))
+						})
+						c.Eval(1)
+						if core != wr {
+							c.Fail(i, "xmss-address-reserved-descriptor-byte", map[string]any{"byte2": b2, "core": core, "wrapper": wr})
+						}
+					}
+					c.Nontrivial(1)
+				}
+				c.Outcome("ok")
+			}
+		}})
 	drv.Main(ck)
 }
